@@ -206,6 +206,70 @@ func (e *Engine) verifyFunction(fn *ssa.Function, noMerge bool) *FuncReport {
 	entry := st.Clone()
 	ex.entry = entry
 	ex.rootVars = env0.vars
+	// lock discipline: globals declared `protects mutex: g...` may only be read with the mutex held
+	// (read or write lock) and written with the write lock held
+	if len(e.cf.Protects) > 0 && fn.Pkg != nil && fn.Name() != "init" {
+		prot := map[int64]int64{} // region -> region of the protecting mutex
+		names := map[int64]string{}
+		for mname, gs := range e.cf.Protects {
+			m := e.globalByName(fn.Pkg.Pkg.Path(), mname)
+			if m == nil {
+				continue
+			}
+			for _, gname := range gs {
+				g := e.globalByName(fn.Pkg.Pkg.Path(), gname)
+				if g == nil {
+					continue
+				}
+				prot[e.globals[g]] = e.globals[m]
+				names[e.globals[g]] = gname
+				for d := 0; d <= 2; d++ {
+					for _, r := range e.regionsAtDepth(st, g, d) {
+						prot[r] = e.globals[m]
+						names[r] = gname
+					}
+				}
+			}
+		}
+		if len(prot) > 0 {
+			st.accessHook = func(s2 *State, a *Term, write bool) {
+				if specDepth > 0 {
+					return
+				}
+				rg := Subst(Rg(a), s2.substMap())
+				// the region may be a choice between several objects (m[uplink] with a symbolic key)
+				var leaves []*Term
+				var walk func(t *Term)
+				walk = func(t *Term) {
+					if t.Op == "ite" {
+						walk(t.Args[1])
+						walk(t.Args[2])
+						return
+					}
+					leaves = append(leaves, t)
+				}
+				walk(rg)
+				var hit int64
+				found := false
+				for _, l := range leaves {
+					if l.IsConst() && l.Val.IsInt64() {
+						if _, ok := prot[l.Val.Int64()]; ok {
+							hit, found = l.Val.Int64(), true
+						}
+					}
+				}
+				if !found {
+					return
+				}
+				held := s2.locks[prot[hit]]
+				if write {
+					ex.addObl(s2, "lock", "lock:write-held:"+names[hit], BoolConst(held == 2), "write of a lock-protected global")
+				} else {
+					ex.addObl(s2, "lock", "lock:read-held:"+names[hit], BoolConst(held >= 1), "read of a lock-protected global")
+				}
+			}
+		}
+	}
 	// frame checking
 	var modAddrs []modItem
 	func() {
@@ -243,6 +307,14 @@ func (e *Engine) verifyFunction(fn *ssa.Function, noMerge bool) *FuncReport {
 	}
 	retK := func(st2 *State, results []Value) {
 		ex.paths++
+		for _, v := range st2.locks {
+			if v != 0 {
+				ex.addObl(st2, "lock", "lock:released-at-return", False, "a package-level mutex is still held when the function returns")
+			}
+		}
+		if len(st2.locks) > 0 {
+			ex.trivialNames[ex.rootName+"#lock:released-at-return"] = "lock"
+		}
 		env := &SpecEnv{ex: ex, vars: map[string]TV{}, st: st2, old: entry, pkg: pkg, mode: "prove", freshBase: 0}
 		for k, v := range env0.vars {
 			env.vars[k] = v
@@ -353,6 +425,8 @@ type modItem struct {
 }
 
 func (e *SpecEnv) modItem(m string) modItem {
+	specDepth++
+	defer func() { specDepth-- }()
 	m = strings.TrimSpace(m)
 	if strings.HasSuffix(m, ".*") {
 		m = "*" + strings.TrimSuffix(m, ".*")
